@@ -614,9 +614,14 @@ type pomCase struct {
 	EffOK      bool              `json:"eff_ok"` // effective versions of all declarations: only the addressed ones changed, to VersionTo
 	EffNote    string            `json:"eff_note,omitempty"`
 	effBefore  []effDecl
-	Claimed    bool              `json:"claimed"` // structural part of the oracle's domain (see claimedDomain)
-	ClaimNote  string            `json:"claim_note,omitempty"`
-	PropPairs  []propPair        `json:"prop_pairs,omitempty"` // generatePropertyPatches calls Write must make, in order
+	DChain     []dPom      `json:"dchain,omitempty"`  // declaration-level reading of the input chain
+	DAfter     []dPom      `json:"dafter,omitempty"`  // ... of the written chain (only declarations present before)
+	Targets    [][2]string `json:"targets,omitempty"` // per update: pom number, origin of the addressed declaration
+	ChainOK    bool        `json:"chain_ok"`          // every pom of the chain was written by Write
+	TokClaimed bool        `json:"tok_claimed"`       // token-level part of the domain (see domain)
+	Claimed    bool        `json:"claimed"`           // structural part of the oracle's domain (see claimedDomain)
+	ClaimNote  string      `json:"claim_note,omitempty"`
+	PropPairs  []propPair  `json:"prop_pairs,omitempty"` // generatePropertyPatches calls Write must make, in order
 }
 
 func (c *pomCase) coq() string {
@@ -629,8 +634,28 @@ func (c *pomCase) coq() string {
 		l = cf.List(pairs)
 	}
 	good := c.Outcome == "ok" && c.TokensOK && c.RereadOK && c.EffOK
-	return fmt.Sprintf("{| mc_prop_pairs := %s; mc_zero_updates := %s; mc_claimed := %s; mc_panic := %s; mc_error := %s; mc_good := %s |}",
-		l, cf.Bool(len(c.Updates) == 0), cf.Bool(c.Claimed), cf.Bool(c.Outcome == "panic"), cf.Bool(c.Outcome == "err"), cf.Bool(good))
+	ups := make([]string, len(c.Updates))
+	for i, u := range c.Updates {
+		pomN, origin := "999", ""
+		if i < len(c.Targets) && c.Targets[i][0] != "" {
+			pomN, origin = c.Targets[i][0], c.Targets[i][1]
+		}
+		ups[i] = fmt.Sprintf("{| pu_key := %s; pu_to := %s; pu_pom := %s%%nat; pu_origin := %s |}",
+			cf.Str(mReqKey(u.Name, u.Type, u.Classifier)), cf.Str(u.To), pomN, cf.Str(origin))
+	}
+	ul := "(@nil pupd)"
+	if len(ups) > 0 {
+		ul = cf.List(ups)
+	}
+	obs := "DObsErr"
+	switch {
+	case c.Outcome == "panic":
+		obs = "DObsPanic"
+	case c.Outcome == "ok":
+		obs = "(DObsOk " + coqChain(c.DAfter) + ")"
+	}
+	return fmt.Sprintf("{| mc_prop_pairs := %s; mc_chain := %s; mc_updates := %s; mc_dobs := %s; mc_chain_ok := %s; mc_tok_claimed := %s; mc_zero_updates := %s; mc_claimed := %s; mc_panic := %s; mc_error := %s; mc_good := %s |}",
+		l, coqChain(c.DChain), ul, obs, cf.Bool(c.ChainOK), cf.Bool(c.TokClaimed), cf.Bool(len(c.Updates) == 0), cf.Bool(c.Claimed), cf.Bool(c.Outcome == "panic"), cf.Bool(c.Outcome == "err"), cf.Bool(good))
 }
 
 // ---------------------------------------------------------------- XML tokens (oracle side: encoding/xml)
@@ -785,6 +810,7 @@ func (c *pomCase) run(pickUpdates func(m guidedremediation.VerifManifest, reqs [
 	c.Outcome, c.Err, c.Out, c.Reqs, c.Reread, c.Want = "", "", nil, nil, nil, nil
 	c.TokensOK, c.TokensNote, c.RereadOK, c.Claimed, c.ClaimNote, c.PropPairs = false, "", false, false, "", nil
 	c.EffOK, c.EffNote, c.effBefore = false, "", nil
+	c.DChain, c.DAfter, c.Targets, c.ChainOK, c.TokClaimed = nil, nil, nil, false, false
 	c.Files = map[string]string{}
 	for _, pf := range c.Chain {
 		c.Files[pf.Path] = pf.Pom.render()
@@ -806,6 +832,10 @@ func (c *pomCase) run(pickUpdates func(m guidedremediation.VerifManifest, reqs [
 		c.Outcome, c.Err = "read-error", "oracle cannot read the generated poms: "+err.Error()
 		return
 	}
+	if c.DChain, err = readChain(c.Files, chainPaths); err != nil {
+		c.Outcome, c.Err = "read-error", "oracle cannot read the generated poms: "+err.Error()
+		return
+	}
 	m, err := readMaven(in, c.Main)
 	if err != nil {
 		c.Outcome, c.Err = "read-error", err.Error()
@@ -817,6 +847,14 @@ func (c *pomCase) run(pickUpdates func(m guidedremediation.VerifManifest, reqs [
 	}
 	for _, r := range reqs {
 		c.Reqs = append(c.Reqs, mReqString(r))
+	}
+	c.Targets = nil
+	for _, u := range c.Updates {
+		t := [2]string{"", ""}
+		if !u.New {
+			t = c.target(u)
+		}
+		c.Targets = append(c.Targets, t)
 	}
 	c.domain()
 
@@ -867,6 +905,21 @@ func (c *pomCase) run(pickUpdates func(m guidedremediation.VerifManifest, reqs [
 		c.TokensOK, c.TokensNote = false, "main pom not written"
 	}
 	c.effOracle(chainPaths)
+	c.ChainOK = true
+	after := map[string]string{}
+	for _, p := range chainPaths {
+		o, ok := c.Out[p]
+		if !ok {
+			c.ChainOK = false
+			o = c.Files[p]
+		}
+		after[p] = o
+	}
+	if da, err := readChain(after, chainPaths); err == nil {
+		c.DAfter = keepShape(c.DChain, da)
+	} else {
+		c.ChainOK = false
+	}
 	m2, err := readMaven(outRoot, c.Main)
 	if err != nil {
 		c.Err = "reread: " + err.Error()
@@ -913,7 +966,7 @@ func (c *pomCase) run(pickUpdates func(m guidedremediation.VerifManifest, reqs [
 // comments; a property that has to change is referenced exactly once in all the files (otherwise other
 // requirements change with it) and defined exactly once.
 func (c *pomCase) domain() {
-	c.Claimed = true
+	c.Claimed, c.TokClaimed = true, true
 	note := func(s string) {
 		c.Claimed = false
 		if c.ClaimNote == "" {
@@ -927,11 +980,13 @@ func (c *pomCase) domain() {
 	if strings.Contains(all, "<!-- pinned -->") {
 		// comment inside a <version> element: dropped by the re-encoding even without updates (known finding)
 		note("comment inside a version element")
+		c.TokClaimed = false
 	}
 	seen := map[string]bool{}
 	for _, u := range c.Updates {
 		if u.New {
 			note("update not addressed to a present requirement")
+			c.TokClaimed = false
 			continue
 		}
 		k := mReqKey(u.Name, u.Type, u.Classifier)
@@ -947,9 +1002,7 @@ func (c *pomCase) domain() {
 		if count != 1 {
 			note("requirement key declared in more than one place (the writer takes the first, whatever the origin)")
 		}
-		if nested {
-			note("declared in a profile or plugin of a parent pom (origin separator lost: update dropped)")
-		}
+		_ = nested // since the separator fix a declaration in a profile/plugin of a parent pom is patched like any other
 		if !strings.Contains(*orig, "${") || !strings.Contains(*orig, "}") {
 			continue
 		}
@@ -991,9 +1044,38 @@ func (c *pomCase) domain() {
 			}
 			if strings.Count(all, ph) != textual {
 				note("property " + name + " used outside dependency versions")
+				c.TokClaimed = false
 			}
 		}
 	}
+}
+
+// target: pom number and origin of the declaration the update is addressed to: among the declarations
+// with the update's key and a version, the one of the update's origin class (dependencyManagement or
+// not) that stands for VersionFrom, else the first of that class, else the first.
+func (c *pomCase) target(u mUpdate) [2]string {
+	k := mReqKey(u.Name, u.Type, u.Classifier)
+	mgmt := func(o string) bool { return o == "management" || strings.HasSuffix(o, "@management") }
+	best, bestScore := -1, -1
+	for i, d := range c.effBefore {
+		if d.Key != k {
+			continue
+		}
+		score := 0
+		if mgmt(d.Origin) == (u.Origin == "management") {
+			score += 2
+		}
+		if d.Eff == u.From {
+			score++
+		}
+		if score > bestScore {
+			best, bestScore = i, score
+		}
+	}
+	if best < 0 {
+		return [2]string{"", ""}
+	}
+	return [2]string{itoa(c.effBefore[best].File), c.effBefore[best].Origin}
 }
 
 // addressedDecl: the declaration the update is addressed to (first by key in chain order, as the
@@ -1121,7 +1203,7 @@ type pomEmitter struct{}
 
 func (pomEmitter) header() string {
 	return "From Coq Require Import List ZArith NArith Bool.\n" +
-		"From Scalibr Require Import Writers.GoBytes Writers.PomProps Writers.PomWriter.\nImport ListNotations.\n"
+		"From Scalibr Require Import Writers.GoBytes Writers.PomProps Writers.PomDecl Writers.PomWriter.\nImport ListNotations.\n"
 }
 func (pomEmitter) caseType() string { return "mcase" }
 
